@@ -102,7 +102,7 @@ func init() {
 			// a constraint on the PARENT store sees every update, also those issued through a child store; it must be
 			// handed the state before the update (plain and child entities alike)
 			watch := &c15Watch{}
-			runHistory(c, r, histOpts{Prefix: "C15", Cfg: cfg, NTx: 40, MaxOps: 3, Hostile: true, Weights: w, NeedDump: true,
+			runHistory(c, r, histOpts{Prefix: "C15", FanIn: true, Cfg: cfg, NTx: 40, MaxOps: 3, Hostile: true, Weights: w, NeedDump: true,
 				Setup: func(e *kmodel.Engine) { e.Sc.St(kmodel.Emps).Store.AddEntityConstraint(watch) },
 				AfterTx: func(e *kmodel.Engine, res *kmodel.TxResult, before, after *dump.Dump) {
 					defer func() { pre = e.M.Clone() }()
@@ -253,12 +253,12 @@ func init() {
 		Promises: func(core.Tier) map[string][]string {
 			return map[string][]string{"child_level_block": {"veto constraint on the child store / through parent", "veto constraint on the child store / through child", "fk restrict from a store referencing the child store / through parent", "fk restrict from a store referencing the child store / through child"},
 				"parent_constraint": {"update of plain entity", "update of " + kmodel.Mgrs + " entity", "update of " + kmodel.Ctrs + " entity"}, "route": {
-				"create via emps/ext on plain:ok", "create via emps/xt on plain:ok", "create via emps on plain:ok",
-				"update via emps on emps/ext:ok", "update via emps on emps/xt:ok", "update via emps/ext on emps/ext:ok", "update via emps/xt on emps/xt:ok",
-				"patch via emps on emps/ext:ok", "patch via emps/ext on emps/ext:ok", "patch via emps/xt on emps/xt:ok",
-				"delete via emps on emps/ext:ok", "delete via emps/ext on emps/ext:ok", "delete via emps/xt on emps/xt:ok", "delete via emps/xt on plain:ok",
-				"update via emps/ext on plain:notfound", "update via emps/xt on plain:notfound", "update via emps on emps/ext:dup",
-			}}
+					"create via emps/ext on plain:ok", "create via emps/xt on plain:ok", "create via emps on plain:ok",
+					"update via emps on emps/ext:ok", "update via emps on emps/xt:ok", "update via emps/ext on emps/ext:ok", "update via emps/xt on emps/xt:ok",
+					"patch via emps on emps/ext:ok", "patch via emps/ext on emps/ext:ok", "patch via emps/xt on emps/xt:ok",
+					"delete via emps on emps/ext:ok", "delete via emps/ext on emps/ext:ok", "delete via emps/xt on emps/xt:ok", "delete via emps/xt on plain:ok",
+					"update via emps/ext on plain:notfound", "update via emps/xt on plain:notfound", "update via emps on emps/ext:dup",
+				}}
 		},
 	})
 }
